@@ -461,6 +461,72 @@ func checkC14(c *Check) {
 			c.Inconclusive("tsh binary not built; command-level observations skipped")
 		}
 	}
+	// 5c. the tsh command over an edited tree: one source tree and ONE output directory per history; between two
+	// invocations only the files whose bytes change are rewritten (the main file keeps its bytes and its age, as
+	// after an edit of an imported file), then the same command line runs again. Each output read back is an
+	// observation of the program whose bytes were on disk: a result kept from the run before shows as another hash.
+	{
+		exe, _ := os.Executable()
+		tsh := filepath.Join(filepath.Dir(exe), "tsh")
+		if _, err := os.Stat(tsh); err == nil {
+			byName := map[string]int{}
+			for i, p := range corpus {
+				byName[p.name] = i
+			}
+			old := time.Now().Add(-72 * time.Hour)
+			seqs := [][]string{{"twin-a", "twin-b", "twin-a"}, {"twin-b", "twin-c", "twin-b", "twin-a"}, {"twin-deep-a", "twin-deep-b", "twin-deep-a"}, {"twin-c", "twin-a"}}
+			for hi, seq := range seqs {
+				for oi, ord := range [][]Target{{Bash}, {Batch}, {Bash, Batch}} {
+					dir := filepath.Join(root, fmt.Sprintf("tshedit-%d-%d", hi, oi))
+					outDir := filepath.Join(dir, "out")
+					os.MkdirAll(outDir, 0o755)
+					onDisk := map[string]string{}
+					for step, name := range seq {
+						p := corpus[byName[name]]
+						for n := range onDisk {
+							if _, keep := p.files[n]; !keep {
+								os.Remove(filepath.Join(dir, n))
+								delete(onDisk, n)
+							}
+						}
+						for n, src := range p.files {
+							if onDisk[n] == src {
+								continue
+							}
+							full := filepath.Join(dir, n)
+							os.MkdirAll(filepath.Dir(full), 0o755)
+							os.WriteFile(full, []byte(src), 0o644)
+							if step == 0 {
+								os.Chtimes(full, old, old) // the first version of the tree is three days old
+							}
+							onDisk[n] = src
+						}
+						args := []string{"-i", filepath.Join(dir, "main.tsh"), "-o", outDir}
+						for _, t := range ord {
+							args = append(args, "-t", string(t))
+						}
+						runErr := exec.Command(tsh, args...).Run()
+						for _, t := range ord {
+							ext := ".sh"
+							if t == Batch {
+								ext = ".bat"
+							}
+							hist := fmt.Sprintf("tsh-edit/%d/order=%d", hi, oi)
+							data, err := os.ReadFile(filepath.Join(outDir, "main"+ext))
+							if runErr != nil {
+								// a failing invocation leaves what stood there before (C19 judges that): the observation is the failure
+								record(c14Event{"tsh", hist, step, "edited-in-place", p.name, t, "exit-nonzero", true, ""})
+							} else if err != nil {
+								record(c14Event{"tsh", hist, step, "edited-in-place", p.name, t, "no-file", true, ""})
+							} else {
+								record(c14Event{"tsh", hist, step, "edited-in-place", p.name, t, shaOf(string(data)), false, ""})
+							}
+						}
+					}
+				}
+			}
+		}
+	}
 	// 6. (thorough) the same corpus transpiled concurrently under the race detector
 	if c.Thorough() {
 		runC14Race(c, root)
